@@ -115,7 +115,7 @@ class DPPGenerator(Generator):
         # Sample keepout locations from m*n except probe
         num_keepout = torch.randint(
             self.num_keepout_min,
-            self.num_keepout_max,
+            max(self.num_keepout_max, self.num_keepout_min + 1),  # min == max: constant
             size=(*bs, 1),
         )
         keepouts = [torch.randperm(m * n)[:k] for k in num_keepout]
